@@ -77,11 +77,6 @@ theorem sub_exempt_iff {x : Expr} {as} : Sub x (.exempt as) ↔ x = .exempt as :
   · intro h; cases h; rfl
   · rintro rfl; exact .refl
 
-/-- what makes a single expression position bad under context flags `F` -/
-def BadE (F : Flags) (e : Expr) : Prop :=
-  (∃ g args r, Sub (.call g args r) e ∧ args.PassesQubit ∧ ¬ g.Includes F) ∨
-    (F.dagger = true ∧ ∃ q, Sub (.place q true) e)
-
 theorem badE_leaf (F) : ¬ BadE F .leaf := by
   rintro (⟨g, a, r, h, _⟩ | ⟨_, q, h⟩) <;> · rw [sub_leaf_iff] at h; cases h
 
@@ -161,204 +156,342 @@ theorem errsArgs_ne_nil (F : Flags) : (as : Args) → (errsArgs F as ≠ [] ↔ 
       · exact .inr ⟨a, hm, hb⟩
 end
 
-mutual
-theorem hasLoopS_iff : (s : Stmt) → (s.hasLoop = true ↔ LoopInS s)
-  | .expr _ => by simp only [Stmt.hasLoop, Bool.false_eq_true, false_iff]; intro h; cases h
-  | .assign _ => by simp only [Stmt.hasLoop, Bool.false_eq_true, false_iff]; intro h; cases h
-  | .ite c t f => by
-    simp only [Stmt.hasLoop, Bool.or_eq_true, hasLoopB_iff t, hasLoopB_iff f]
-    constructor
-    · rintro (h | h)
-      · exact .iteT h
-      · exact .iteF h
-    · intro h; cases h with
-      | iteT h => exact .inl h
-      | iteF h => exact .inr h
-  | .while _ _ => by simp only [Stmt.hasLoop, true_iff]; exact .here
-theorem hasLoopB_iff : (b : Block) → (b.hasLoop = true ↔ LoopInB b)
-  | .nil => by simp only [Block.hasLoop, Bool.false_eq_true, false_iff]; intro h; cases h
-  | .cons s r => by
-    simp only [Block.hasLoop, Bool.or_eq_true, hasLoopS_iff s, hasLoopB_iff r]
-    constructor
-    · rintro (h | h)
-      · exact .head h
-      · exact .tail h
-    · intro h; cases h with
-      | head h => exact .inl h
-      | tail h => exact .inr h
-end
+/-! ### statements and blocks -/
+
+/-- the specification predicate for one statement -/
+def VS (F : Flags) (s : Stmt) : Prop :=
+  (∃ F' e, SiteS F s F' e ∧ BadE F' e) ∨
+    (∃ F', F'.dagger = true ∧ (LoopAtS F s F' ∨ AssignAtS F s F'))
+
+theorem or_dagger (F G : Flags) : (F.or G).dagger = true ↔ (F.dagger = true ∨ G.dagger = true) := by
+  simp [Flags.or]
 
 mutual
-theorem hasAssignS_iff : (s : Stmt) → (s.hasAssign = true ↔ AssignInS s)
-  | .expr _ => by simp only [Stmt.hasAssign, Bool.false_eq_true, false_iff]; intro h; cases h
-  | .assign _ => by simp only [Stmt.hasAssign, true_iff]; exact .here
-  | .ite c t f => by
-    simp only [Stmt.hasAssign, Bool.or_eq_true, hasAssignB_iff t, hasAssignB_iff f]
-    constructor
-    · rintro (h | h)
-      · exact .iteT h
-      · exact .iteF h
-    · intro h; cases h with
-      | iteT h => exact .inl h
-      | iteF h => exact .inr h
+theorem shallow_deepS : (s : Stmt) → s.hasAssignShallow = true → s.hasAssign = true
+  | .expr _ => by simp [Stmt.hasAssignShallow]
+  | .assign _ => by simp [Stmt.hasAssign]
+  | .ite _ t f => by
+    simp only [Stmt.hasAssignShallow, Stmt.hasAssign, Bool.or_eq_true]
+    rintro (h | h)
+    · exact .inl (shallow_deepB t h)
+    · exact .inr (shallow_deepB f h)
   | .while _ b => by
-    simp only [Stmt.hasAssign, hasAssignB_iff b]
-    constructor
-    · intro h; exact .whileB h
-    · intro h; cases h with
-      | whileB h => exact h
-theorem hasAssignB_iff : (b : Block) → (b.hasAssign = true ↔ AssignInB b)
-  | .nil => by simp only [Block.hasAssign, Bool.false_eq_true, false_iff]; intro h; cases h
+    simp only [Stmt.hasAssignShallow, Stmt.hasAssign]
+    exact shallow_deepB b
+  | .withBlock _ _ _ => by simp [Stmt.hasAssignShallow]
+theorem shallow_deepB : (b : Block) → b.hasAssignShallow = true → b.hasAssign = true
+  | .nil => by simp [Block.hasAssignShallow]
   | .cons s r => by
-    simp only [Block.hasAssign, Bool.or_eq_true, hasAssignS_iff s, hasAssignB_iff r]
-    constructor
-    · rintro (h | h)
-      · exact .head h
-      · exact .tail h
-    · intro h; cases h with
-      | head h => exact .inl h
-      | tail h => exact .inr h
+    simp only [Block.hasAssignShallow, Block.hasAssign, Bool.or_eq_true]
+    rintro (h | h)
+    · exact .inl (shallow_deepS s h)
+    · exact .inr (shallow_deepB r h)
 end
-
-/-- some expression position of the block is bad -/
-def BadB (F : Flags) (b : Block) : Prop := ∃ e, SiteB e b ∧ BadE F e
-def BadS (F : Flags) (s : Stmt) : Prop := ∃ e, SiteS e s ∧ BadE F e
 
 mutual
-/-- the per-block visit reports something iff a position is bad or (dagger) an assignment
-    occurs -/
-theorem errsStmt_ne_nil (F : Flags) :
-    (s : Stmt) → (errsStmt F s ≠ [] ↔ BadS F s ∨ (F.dagger = true ∧ AssignInS s))
-  | .expr e => by
-    rw [errsStmt, errsExpr_ne_nil]
-    constructor
-    · intro h; exact .inl ⟨e, .expr, h⟩
-    · rintro (⟨e', hs, hb⟩ | ⟨_, ha⟩)
-      · cases hs; exact hb
-      · cases ha
-  | .assign v => by
-    simp only [errsStmt]
-    cases hd : F.dagger
-    · simp only [Bool.false_eq_true, ↓reduceIte, false_and, or_false]
-      cases v with
-      | none =>
-        simp only [ne_eq, not_true_eq_false, false_iff]
-        rintro ⟨e, hs, _⟩; cases hs
-      | some e =>
-        simp only [errsExpr_ne_nil]
-        constructor
-        · intro h; exact ⟨e, .assign, h⟩
-        · rintro ⟨e', hs, hb⟩; cases hs; exact hb
-    · simp only [↓reduceIte, ne_eq, List.cons_ne_self, not_false_eq_true, true_and, true_iff]
-      exact .inr .here
+/-- under dagger every assignment, however deeply nested, is reported by the block visit -/
+theorem assign_errsS (F : Flags) (hd : F.dagger = true) :
+    (s : Stmt) → s.hasAssign = true → errsStmt F s ≠ []
+  | .expr _ => by simp [Stmt.hasAssign]
+  | .assign _ => by simp [errsStmt, hd]
   | .ite c t f => by
-    rw [errsStmt, append_ne_nil_iff, append_ne_nil_iff, errsExpr_ne_nil, errsBlock_ne_nil F t,
-      errsBlock_ne_nil F f]
-    constructor
-    · rintro ((h | (⟨e, hs, hb⟩ | ⟨hd, ha⟩)) | (⟨e, hs, hb⟩ | ⟨hd, ha⟩))
-      · exact .inl ⟨c, .iteC, h⟩
-      · exact .inl ⟨e, .iteT hs, hb⟩
-      · exact .inr ⟨hd, .iteT ha⟩
-      · exact .inl ⟨e, .iteF hs, hb⟩
-      · exact .inr ⟨hd, .iteF ha⟩
-    · rintro (⟨e, hs, hb⟩ | ⟨hd, ha⟩)
-      · cases hs with
-        | iteC => exact .inl (.inl hb)
-        | iteT h => exact .inl (.inr (.inl ⟨e, h, hb⟩))
-        | iteF h => exact .inr (.inl ⟨e, h, hb⟩)
-      · cases ha with
-        | iteT h => exact .inl (.inr (.inr ⟨hd, h⟩))
-        | iteF h => exact .inr (.inr ⟨hd, h⟩)
+    simp only [Stmt.hasAssign, Bool.or_eq_true, errsStmt]
+    rintro (h | h)
+    · rw [append_ne_nil_iff, append_ne_nil_iff]; exact .inl (.inr (assign_errsB F hd t h))
+    · rw [append_ne_nil_iff]; exact .inr (assign_errsB F hd f h)
   | .while c b => by
-    rw [errsStmt, append_ne_nil_iff, errsExpr_ne_nil, errsBlock_ne_nil F b]
-    constructor
-    · rintro (h | (⟨e, hs, hb⟩ | ⟨hd, ha⟩))
-      · exact .inl ⟨c, .whileC, h⟩
-      · exact .inl ⟨e, .whileB hs, hb⟩
-      · exact .inr ⟨hd, .whileB ha⟩
-    · rintro (⟨e, hs, hb⟩ | ⟨hd, ha⟩)
-      · cases hs with
-        | whileC => exact .inl hb
-        | whileB h => exact .inr (.inl ⟨e, h, hb⟩)
-      · cases ha with
-        | whileB h => exact .inr (.inr ⟨hd, h⟩)
-theorem errsBlock_ne_nil (F : Flags) :
-    (b : Block) → (errsBlock F b ≠ [] ↔ BadB F b ∨ (F.dagger = true ∧ AssignInB b))
-  | .nil => by
-    simp only [errsBlock, ne_eq, not_true_eq_false, false_iff]
-    rintro (⟨e, hs, _⟩ | ⟨_, ha⟩)
-    · cases hs
-    · cases ha
+    simp only [Stmt.hasAssign, errsStmt]
+    intro h; rw [append_ne_nil_iff]; exact .inr (assign_errsB F hd b h)
+  | .withBlock cargs G b => by
+    simp only [Stmt.hasAssign, errsStmt]
+    intro h; rw [append_ne_nil_iff]
+    exact .inr (assign_errsB (F.or G) ((or_dagger F G).mpr (.inl hd)) b h)
+theorem assign_errsB (F : Flags) (hd : F.dagger = true) :
+    (b : Block) → b.hasAssign = true → errsBlock F b ≠ []
+  | .nil => by simp [Block.hasAssign]
   | .cons s r => by
-    rw [errsBlock, append_ne_nil_iff, errsStmt_ne_nil F s, errsBlock_ne_nil F r]
-    constructor
-    · rintro ((⟨e, hs, hb⟩ | ⟨hd, ha⟩) | (⟨e, hs, hb⟩ | ⟨hd, ha⟩))
-      · exact .inl ⟨e, .head hs, hb⟩
-      · exact .inr ⟨hd, .head ha⟩
-      · exact .inl ⟨e, .tail hs, hb⟩
-      · exact .inr ⟨hd, .tail ha⟩
-    · rintro (⟨e, hs, hb⟩ | ⟨hd, ha⟩)
-      · cases hs with
-        | head h => exact .inl (.inl ⟨e, h, hb⟩)
-        | tail h => exact .inr (.inl ⟨e, h, hb⟩)
-      · cases ha with
-        | head h => exact .inl (.inr ⟨hd, h⟩)
-        | tail h => exact .inr (.inr ⟨hd, h⟩)
+    simp only [Block.hasAssign, Bool.or_eq_true, errsBlock]
+    rintro (h | h)
+    · rw [append_ne_nil_iff]; exact .inl (assign_errsS F hd s h)
+    · rw [append_ne_nil_iff]; exact .inr (assign_errsB F hd r h)
 end
 
-theorem badB_iff (F : Flags) (b : Block) :
-    BadB F b ↔ BadCall F b ∨ (F.dagger = true ∧ SubscriptIn b) := by
-  unfold BadB BadE BadCall SubscriptIn
+theorem prepassWith_ne_none (G : Flags) (b : Block) :
+    (prepassWith G b).toList ≠ [] ↔
+      (G.dagger = true ∧ (b.hasLoop = true ∨ b.hasAssignShallow = true)) := by
+  unfold prepassWith
+  cases G.dagger <;> cases b.hasLoop <;> cases b.hasAssignShallow <;> simp
+
+/-- `Violates` of a `with` body, seen from the enclosing statement -/
+theorem vs_with_iff (F G : Flags) (cargs : Args) (b : Block) :
+    VS F (.withBlock cargs G b) ↔ (∃ a, Args.Mem a cargs ∧ BadE F a) ∨ Violates (F.or G) b := by
+  unfold VS Violates
   constructor
-  · rintro ⟨e, hs, (⟨g, a, r, h1, h2, h3⟩ | ⟨hd, q, h⟩)⟩
-    · exact .inl ⟨e, g, a, r, hs, h1, h2, h3⟩
-    · exact .inr ⟨hd, e, q, hs, h⟩
-  · rintro (⟨e, g, a, r, hs, h1, h2, h3⟩ | ⟨hd, e, q, hs, h⟩)
-    · exact ⟨e, hs, .inl ⟨g, a, r, h1, h2, h3⟩⟩
-    · exact ⟨e, hs, .inr ⟨hd, q, h⟩⟩
+  · rintro (⟨F', e, hs, hb⟩ | ⟨F', hd, (hl | ha)⟩)
+    · cases hs with
+      | withArg hm => exact .inl ⟨e, hm, hb⟩
+      | withBody h => exact .inr (.inl ⟨F', e, h, hb⟩)
+    · cases hl with
+      | withBody h => exact .inr (.inr ⟨F', hd, .inl h⟩)
+    · cases ha with
+      | withBody h => exact .inr (.inr ⟨F', hd, .inr h⟩)
+  · rintro (⟨a, hm, hb⟩ | (⟨F', e, hs, hb⟩ | ⟨F', hd, (hl | ha)⟩))
+    · exact .inl ⟨F, a, .withArg hm, hb⟩
+    · exact .inl ⟨F', e, .withBody hs, hb⟩
+    · exact .inr ⟨F', hd, .inl (.withBody hl)⟩
+    · exact .inr ⟨F', hd, .inr (.withBody ha)⟩
 
-theorem prepassFn_go_none :
-    (b : Block) → (prepassFn.go b = none ↔ (¬ LoopInB b ∧ ¬ AssignInB b))
-  | .nil => by
-    simp only [prepassFn.go, true_iff]
-    exact And.intro (fun h => nomatch h) (fun h => nomatch h)
+theorem vs_ite_iff (F : Flags) (c : Expr) (t f : Block) :
+    VS F (.ite c t f) ↔ BadE F c ∨ Violates F t ∨ Violates F f := by
+  unfold VS Violates
+  constructor
+  · rintro (⟨F', e, hs, hb⟩ | ⟨F', hd, (hl | ha)⟩)
+    · cases hs with
+      | iteC => exact .inl hb
+      | iteT h => exact .inr (.inl (.inl ⟨F', e, h, hb⟩))
+      | iteF h => exact .inr (.inr (.inl ⟨F', e, h, hb⟩))
+    · cases hl with
+      | iteT h => exact .inr (.inl (.inr ⟨F', hd, .inl h⟩))
+      | iteF h => exact .inr (.inr (.inr ⟨F', hd, .inl h⟩))
+    · cases ha with
+      | iteT h => exact .inr (.inl (.inr ⟨F', hd, .inr h⟩))
+      | iteF h => exact .inr (.inr (.inr ⟨F', hd, .inr h⟩))
+  · rintro (hb | (⟨F', e, hs, hb⟩ | ⟨F', hd, (hl | ha)⟩) | (⟨F', e, hs, hb⟩ | ⟨F', hd, (hl | ha)⟩))
+    · exact .inl ⟨F, c, .iteC, hb⟩
+    · exact .inl ⟨F', e, .iteT hs, hb⟩
+    · exact .inr ⟨F', hd, .inl (.iteT hl)⟩
+    · exact .inr ⟨F', hd, .inr (.iteT ha)⟩
+    · exact .inl ⟨F', e, .iteF hs, hb⟩
+    · exact .inr ⟨F', hd, .inl (.iteF hl)⟩
+    · exact .inr ⟨F', hd, .inr (.iteF ha)⟩
+
+theorem vs_while_iff (F : Flags) (c : Expr) (b : Block) :
+    VS F (.while c b) ↔ F.dagger = true ∨ BadE F c ∨ Violates F b := by
+  unfold VS Violates
+  constructor
+  · rintro (⟨F', e, hs, hb⟩ | ⟨F', hd, (hl | ha)⟩)
+    · cases hs with
+      | whileC => exact .inr (.inl hb)
+      | whileB h => exact .inr (.inr (.inl ⟨F', e, h, hb⟩))
+    · cases hl with
+      | here => exact .inl hd
+      | whileB h => exact .inr (.inr (.inr ⟨F', hd, .inl h⟩))
+    · cases ha with
+      | whileB h => exact .inr (.inr (.inr ⟨F', hd, .inr h⟩))
+  · rintro (hd | hb | (⟨F', e, hs, hb⟩ | ⟨F', hd, (hl | ha)⟩))
+    · exact .inr ⟨F, hd, .inl .here⟩
+    · exact .inl ⟨F, c, .whileC, hb⟩
+    · exact .inl ⟨F', e, .whileB hs, hb⟩
+    · exact .inr ⟨F', hd, .inl (.whileB hl)⟩
+    · exact .inr ⟨F', hd, .inr (.whileB ha)⟩
+
+theorem vs_expr_iff (F : Flags) (e : Expr) : VS F (.expr e) ↔ BadE F e := by
+  unfold VS
+  constructor
+  · rintro (⟨F', e', hs, hb⟩ | ⟨F', hd, (hl | ha)⟩)
+    · cases hs; exact hb
+    · cases hl
+    · cases ha
+  · intro h; exact .inl ⟨F, e, .expr, h⟩
+
+theorem vs_assign_iff (F : Flags) (v : Option Expr) :
+    VS F (.assign v) ↔ F.dagger = true ∨ ∃ e, v = some e ∧ BadE F e := by
+  unfold VS
+  constructor
+  · rintro (⟨F', e', hs, hb⟩ | ⟨F', hd, (hl | ha)⟩)
+    · cases hs; exact .inr ⟨e', rfl, hb⟩
+    · cases hl
+    · cases ha; exact .inl hd
+  · rintro (hd | ⟨e, rfl, hb⟩)
+    · exact .inr ⟨F, hd, .inr .here⟩
+    · exact .inl ⟨F, e, .assign, hb⟩
+
+theorem violates_nil (F : Flags) : ¬ Violates F .nil := by
+  rintro (⟨F', e, hs, _⟩ | ⟨F', _, (h | h)⟩)
+  · cases hs
+  · cases h
+  · cases h
+
+theorem violates_cons_iff (F : Flags) (s : Stmt) (r : Block) :
+    Violates F (.cons s r) ↔ VS F s ∨ Violates F r := by
+  unfold VS Violates
+  constructor
+  · rintro (⟨F', e, hs, hb⟩ | ⟨F', hd, (hl | ha)⟩)
+    · cases hs with
+      | head h => exact .inl (.inl ⟨F', e, h, hb⟩)
+      | tail h => exact .inr (.inl ⟨F', e, h, hb⟩)
+    · cases hl with
+      | head h => exact .inl (.inr ⟨F', hd, .inl h⟩)
+      | tail h => exact .inr (.inr ⟨F', hd, .inl h⟩)
+    · cases ha with
+      | head h => exact .inl (.inr ⟨F', hd, .inr h⟩)
+      | tail h => exact .inr (.inr ⟨F', hd, .inr h⟩)
+  · rintro ((⟨F', e, hs, hb⟩ | ⟨F', hd, (hl | ha)⟩) | (⟨F', e, hs, hb⟩ | ⟨F', hd, (hl | ha)⟩))
+    · exact .inl ⟨F', e, .head hs, hb⟩
+    · exact .inr ⟨F', hd, .inl (.head hl)⟩
+    · exact .inr ⟨F', hd, .inr (.head ha)⟩
+    · exact .inl ⟨F', e, .tail hs, hb⟩
+    · exact .inr ⟨F', hd, .inl (.tail hl)⟩
+    · exact .inr ⟨F', hd, .inr (.tail ha)⟩
+
+mutual
+/-- the block visit, together with "a loop somewhere below while dagger is required here",
+    is exactly the specification predicate -/
+theorem mainS : (F : Flags) → (s : Stmt) →
+    (((F.dagger = true ∧ s.hasLoop = true) ∨ errsStmt F s ≠ []) ↔ VS F s)
+  | F, .expr e => by
+    rw [vs_expr_iff, errsStmt, errsExpr_ne_nil]
+    simp [Stmt.hasLoop]
+  | F, .assign v => by
+    rw [vs_assign_iff]
+    simp only [Stmt.hasLoop, Bool.false_eq_true, and_false, false_or, errsStmt]
+    cases hd : F.dagger
+    · cases v with
+      | none => simp
+      | some e => simp [errsExpr_ne_nil]
+    · simp
+  | F, .ite c t f => by
+    rw [vs_ite_iff, ← mainB F t, ← mainB F f, errsStmt, append_ne_nil_iff, append_ne_nil_iff,
+      errsExpr_ne_nil]
+    simp only [Stmt.hasLoop, Bool.or_eq_true]
+    constructor
+    · rintro (⟨hd, (h | h)⟩ | ((h | h) | h))
+      · exact .inr (.inl (.inl ⟨hd, h⟩))
+      · exact .inr (.inr (.inl ⟨hd, h⟩))
+      · exact .inl h
+      · exact .inr (.inl (.inr h))
+      · exact .inr (.inr (.inr h))
+    · rintro (h | (⟨hd, h⟩ | h) | (⟨hd, h⟩ | h))
+      · exact .inr (.inl (.inl h))
+      · exact .inl ⟨hd, .inl h⟩
+      · exact .inr (.inl (.inr h))
+      · exact .inl ⟨hd, .inr h⟩
+      · exact .inr (.inr h)
+  | F, .while c b => by
+    rw [vs_while_iff, ← mainB F b, errsStmt, append_ne_nil_iff, errsExpr_ne_nil]
+    simp only [Stmt.hasLoop, and_true]
+    constructor
+    · rintro (hd | (h | h))
+      · exact .inl hd
+      · exact .inr (.inl h)
+      · exact .inr (.inr (.inr h))
+    · rintro (hd | h | (⟨hd, _⟩ | h))
+      · exact .inl hd
+      · exact .inr (.inl h)
+      · exact .inl hd
+      · exact .inr (.inr h)
+  | F, .withBlock cargs G b => by
+    rw [vs_with_iff, ← mainB (F.or G) b, errsStmt, append_ne_nil_iff, append_ne_nil_iff,
+      errsArgs_ne_nil, prepassWith_ne_none, or_dagger]
+    simp only [Stmt.hasLoop]
+    constructor
+    · rintro (⟨hd, h⟩ | ((h | ⟨hg, (h | h)⟩) | h))
+      · exact .inr (.inl ⟨.inl hd, h⟩)
+      · exact .inl h
+      · exact .inr (.inl ⟨.inr hg, h⟩)
+      · exact .inr (.inr (assign_errsB (F.or G) ((or_dagger F G).mpr (.inr hg)) b (shallow_deepB b h)))
+      · exact .inr (.inr h)
+    · rintro (h | (⟨(hd | hg), h⟩ | h))
+      · exact .inr (.inl (.inl h))
+      · exact .inl ⟨hd, h⟩
+      · exact .inr (.inl (.inr ⟨hg, .inl h⟩))
+      · exact .inr (.inr h)
+theorem mainB : (F : Flags) → (b : Block) →
+    (((F.dagger = true ∧ b.hasLoop = true) ∨ errsBlock F b ≠ []) ↔ Violates F b)
+  | F, .nil => by
+    simp only [Block.hasLoop, Bool.false_eq_true, and_false, errsBlock, ne_eq, not_true_eq_false,
+      or_self, false_iff]
+    exact violates_nil F
+  | F, .cons s r => by
+    rw [violates_cons_iff, ← mainS F s, ← mainB F r, errsBlock, append_ne_nil_iff]
+    simp only [Block.hasLoop, Bool.or_eq_true]
+    constructor
+    · rintro (⟨hd, (h | h)⟩ | (h | h))
+      · exact .inl (.inl ⟨hd, h⟩)
+      · exact .inr (.inl ⟨hd, h⟩)
+      · exact .inl (.inr h)
+      · exact .inr (.inr h)
+    · rintro ((⟨hd, h⟩ | h) | (⟨hd, h⟩ | h))
+      · exact .inl ⟨hd, .inl h⟩
+      · exact .inr (.inl h)
+      · exact .inl ⟨hd, .inr h⟩
+      · exact .inr (.inr h)
+end
+
+mutual
+theorem loopAt_of_hasLoopS : (F : Flags) → (s : Stmt) → s.hasLoop = true → ∃ F', LoopAtS F s F'
+  | F, .expr _, h => by simp [Stmt.hasLoop] at h
+  | F, .assign _, h => by simp [Stmt.hasLoop] at h
+  | F, .ite c t f, h => by
+    simp only [Stmt.hasLoop, Bool.or_eq_true] at h
+    rcases h with h | h
+    · obtain ⟨F', h'⟩ := loopAt_of_hasLoopB F t h; exact ⟨F', .iteT h'⟩
+    · obtain ⟨F', h'⟩ := loopAt_of_hasLoopB F f h; exact ⟨F', .iteF h'⟩
+  | F, .while c b, _ => ⟨F, .here⟩
+  | F, .withBlock cargs G b, h => by
+    simp only [Stmt.hasLoop] at h
+    obtain ⟨F', h'⟩ := loopAt_of_hasLoopB (F.or G) b h; exact ⟨F', .withBody h'⟩
+theorem loopAt_of_hasLoopB : (F : Flags) → (b : Block) → b.hasLoop = true → ∃ F', LoopAtB F b F'
+  | F, .nil, h => by simp [Block.hasLoop] at h
+  | F, .cons s r, h => by
+    simp only [Block.hasLoop, Bool.or_eq_true] at h
+    rcases h with h | h
+    · obtain ⟨F', h'⟩ := loopAt_of_hasLoopS F s h; exact ⟨F', .head h'⟩
+    · obtain ⟨F', h'⟩ := loopAt_of_hasLoopB F r h; exact ⟨F', .tail h'⟩
+end
+
+mutual
+theorem assignAt_of_hasAssignS : (F : Flags) → (s : Stmt) → s.hasAssign = true → ∃ F', AssignAtS F s F'
+  | F, .expr _, h => by simp [Stmt.hasAssign] at h
+  | F, .assign _, _ => ⟨F, .here⟩
+  | F, .ite c t f, h => by
+    simp only [Stmt.hasAssign, Bool.or_eq_true] at h
+    rcases h with h | h
+    · obtain ⟨F', h'⟩ := assignAt_of_hasAssignB F t h; exact ⟨F', .iteT h'⟩
+    · obtain ⟨F', h'⟩ := assignAt_of_hasAssignB F f h; exact ⟨F', .iteF h'⟩
+  | F, .while c b, h => by
+    simp only [Stmt.hasAssign] at h
+    obtain ⟨F', h'⟩ := assignAt_of_hasAssignB F b h; exact ⟨F', .whileB h'⟩
+  | F, .withBlock cargs G b, h => by
+    simp only [Stmt.hasAssign] at h
+    obtain ⟨F', h'⟩ := assignAt_of_hasAssignB (F.or G) b h; exact ⟨F', .withBody h'⟩
+theorem assignAt_of_hasAssignB : (F : Flags) → (b : Block) → b.hasAssign = true → ∃ F', AssignAtB F b F'
+  | F, .nil, h => by simp [Block.hasAssign] at h
+  | F, .cons s r, h => by
+    simp only [Block.hasAssign, Bool.or_eq_true] at h
+    rcases h with h | h
+    · obtain ⟨F', h'⟩ := assignAt_of_hasAssignS F s h; exact ⟨F', .head h'⟩
+    · obtain ⟨F', h'⟩ := assignAt_of_hasAssignB F r h; exact ⟨F', .tail h'⟩
+end
+
+theorem prepassFn_go_ne_none :
+    (b : Block) → (prepassFn.go b ≠ none ↔ (b.hasLoop = true ∨ b.hasAssign = true))
+  | .nil => by simp [prepassFn.go, Block.hasLoop, Block.hasAssign]
   | .cons s r => by
-    have ih := prepassFn_go_none r
+    have ih := prepassFn_go_ne_none r
     unfold prepassFn.go
-    by_cases hl : s.hasLoop = true
-    · simp only [hl, ↓reduceIte, reduceCtorEq, false_iff, not_and]
-      intro h; exact absurd (.head ((hasLoopS_iff s).mp hl)) h
-    · by_cases ha : s.hasAssign = true
-      · simp only [hl, Bool.false_eq_true, ↓reduceIte, ha, reduceCtorEq, false_iff, not_and]
-        intro _ h; exact h (.head ((hasAssignS_iff s).mp ha))
-      · simp only [hl, Bool.false_eq_true, ↓reduceIte, ha, ih]
-        have hl' : ¬ LoopInS s := fun h => hl ((hasLoopS_iff s).mpr h)
-        have ha' : ¬ AssignInS s := fun h => ha ((hasAssignS_iff s).mpr h)
-        constructor
-        · rintro ⟨h1, h2⟩
-          refine ⟨fun h => ?_, fun h => ?_⟩
-          · cases h with
-            | head h => exact hl' h
-            | tail h => exact h1 h
-          · cases h with
-            | head h => exact ha' h
-            | tail h => exact h2 h
-        · rintro ⟨h1, h2⟩
-          exact ⟨fun h => h1 (.tail h), fun h => h2 (.tail h)⟩
+    simp only [Block.hasLoop, Block.hasAssign, Bool.or_eq_true]
+    cases s.hasLoop <;> cases s.hasAssign <;> simp [ih]
 
-theorem prepass_none (k : Kind) (F : Flags) (b : Block) :
-    prepass k F b = none ↔
-      ¬ (F.dagger = true ∧ (LoopInB b ∨ AssignInB b)) := by
+theorem prepass_ne_none (k : Kind) (F : Flags) (b : Block) :
+    prepass k F b ≠ none ↔
+      (F.dagger = true ∧ (b.hasLoop = true ∨
+        (match k with | .fn => b.hasAssign | .withBlock => b.hasAssignShallow) = true)) := by
   cases k
   · simp only [prepass, prepassFn]
     cases hd : F.dagger
     · simp
-    · simp only [Bool.not_true, Bool.false_eq_true, ↓reduceIte, prepassFn_go_none, true_and, not_or]
-  · simp only [prepass, prepassWith]
-    cases hd : F.dagger
-    · simp
-    · simp only [Bool.not_true, Bool.false_eq_true, ↓reduceIte, true_and, not_or,
-        ← hasLoopB_iff, ← hasAssignB_iff]
-      cases b.hasLoop <;> cases b.hasAssign <;> simp
+    · simp only [Bool.not_true, Bool.false_eq_true, ↓reduceIte, prepassFn_go_ne_none, true_and]
+  · have := prepassWith_ne_none F b
+    simp only [prepass]
+    rw [← this]
+    cases prepassWith F b <;> simp
+
+theorem check_ne_ok_iff (k : Kind) (F : Flags) (b : Block) :
+    check k F b ≠ .ok ↔ (prepass k F b ≠ none ∨ errsBlock F b ≠ []) := by
+  unfold check
+  cases prepass k F b with
+  | some e => simp
+  | none => cases errsBlock F b <;> simp
 
 end GuppyVerif.Unitary
